@@ -203,7 +203,7 @@ pub fn run_bytes(bytes: Vec<u8>, label: Value, em: &mut Emitter) {
     let (tx, rx) = mpsc::channel();
     let n = bytes.len();
     let h = std::thread::Builder::new().stack_size(64 << 20).spawn(move || lifecycle(bytes, tx)).expect("spawn");
-    let deadline = Instant::now() + Duration::from_secs(20);
+    let deadline = Instant::now() + Duration::from_secs(60);   // wall clock: generous, the machine may be shared with other checks
     let mut current = ("decode".to_string(), String::new());
     loop {
         let left = deadline.saturating_duration_since(Instant::now());
